@@ -14,6 +14,8 @@ import (
 	"time"
 
 	dcp "github.com/Trendyol/go-dcp"
+	"github.com/Trendyol/go-dcp/stream"
+	"github.com/Trendyol/go-dcp/tracing"
 	"github.com/couchbase/gocbcore/v10/memd"
 	"pgregory.net/rapid"
 	"verif/simnode"
@@ -314,6 +316,88 @@ func init() {
 			return err.Error()
 		}
 		d, _ := c18ExecWire(w)
+		return d
+	})
+}
+
+// ---- what the serial mode is: one stream closed at a time ----
+// Below 5.5.0 the library closes the streams one after the other, and the close of the next vBucket is not issued before the
+// end of the previous vBucket's stream has reached its observer (the reason for the gate: gocbcore produces that end on the
+// close acknowledgement, on another goroutine). From 5.5.0 on all closes are issued at once. Interface-level client whose
+// end notifications arrive a few milliseconds after CloseStream returned, as gocbcore delivers them.
+type c18Serial struct {
+	V     c18V `json:"v"`
+	NVb   int  `json:"nvb"`
+	EndMs int  `json:"end_ms"`
+}
+
+func c18ExecSerial(sc c18Serial) (string, bool) {
+	cfg := laConfig()
+	cl := newFakeClient(16)
+	cl.endOnClose = true
+	cl.endAsync = time.Duration(sc.EndMs) * time.Millisecond
+	disc := &fakeDiscovery{}
+	disc.set(0, uint16(sc.NVb-1))
+	st := stream.NewStream(cl, newFakeMeta(), cfg, sc.V.ver(), &couchbase.BucketInfo{BucketType: "membase"},
+		disc, &fakeConsumer{}, map[uint32]string{}, make(chan struct{}, 1), &fakeHandler{}, tracing.NewTracerComponent())
+	if ok, pv := within(20*time.Second, func() { st.Open() }); !ok || pv != nil {
+		return fmt.Sprintf("Open(): returned=%v panic=%v", ok, pv), false
+	}
+	if ok, pv := within(20*time.Second, func() { st.Close(false) }); !ok || pv != nil {
+		return fmt.Sprintf("server %v: Close() with end notifications arriving %d ms after each close acknowledgement: returned=%v panic=%v", sc.V, sc.EndMs, ok, pv), false
+	}
+	time.Sleep(time.Duration(sc.EndMs+2) * time.Millisecond) // parallel mode: the last notifications are still on their way
+	cl.mu.Lock()
+	defer cl.mu.Unlock()
+	serial := c18Cmp(sc.V, c18V{5, 5, 0, 0}) < 0
+	if len(cl.closeAt) != sc.NVb {
+		return fmt.Sprintf("server %v: %d close requests for %d vBuckets", sc.V, len(cl.closeAt), sc.NVb), serial
+	}
+	endOf := map[uint16]time.Time{}
+	for _, e := range cl.endAt {
+		endOf[e.vb] = e.t
+	}
+	overlapped := false
+	for i := 1; i < len(cl.closeAt); i++ {
+		prev, cur := cl.closeAt[i-1], cl.closeAt[i]
+		pe, ended := endOf[prev.vb]
+		if !ended || cur.t.Before(pe) {
+			overlapped = true
+			if serial {
+				return fmt.Sprintf("server %v (< 5.5.0, serial stream closing): the close of vb %d was issued before the end of vb %d's stream had reached its observer (it arrives %d ms after the close acknowledgement): more than one stream is being closed at a time", sc.V, cur.vb, prev.vb, sc.EndMs), serial
+			}
+		}
+	}
+	if !serial && !overlapped && sc.NVb >= 2 && sc.EndMs >= 2 {
+		return fmt.Sprintf("server %v (>= 5.5.0): every close waited for the previous stream's end; serial closing is only for servers below 5.5.0", sc.V), serial
+	}
+	return "", serial
+}
+
+func TestC18_SerialClose(t *testing.T) {
+	rapid.Check(t, func(rt *rapid.T) {
+		sc := c18Serial{NVb: rapid.IntRange(2, 6).Draw(rt, "nvb"), EndMs: rapid.IntRange(2, 5).Draw(rt, "endms")}
+		sc.V = c18V{rapid.SampledFrom([]int{4, 5, 5, 5, 6, 7}).Draw(rt, "major"), rapid.SampledFrom([]int{0, 4, 5, 5, 6}).Draw(rt, "minor"),
+			rapid.SampledFrom([]int{0, 0, 1, 9}).Draw(rt, "patch"), rapid.SampledFrom([]int{0, 0, 1, 9999}).Draw(rt, "build")}
+		d, serial := c18ExecSerial(sc)
+		if d != "" {
+			violation(rt, "C18", "c18serial", sc, "%s", d)
+		}
+		lab := "layer_a_parallel_close"
+		if serial {
+			lab = "layer_a_serial_close"
+		}
+		record("C18", sc, sc.V[0] == 5, "serial_close_cases", lab)
+	})
+}
+
+func init() {
+	registerReplay("c18serial", func(raw json.RawMessage) string {
+		var sc c18Serial
+		if err := json.Unmarshal(raw, &sc); err != nil {
+			return err.Error()
+		}
+		d, _ := c18ExecSerial(sc)
 		return d
 	})
 }
